@@ -441,7 +441,31 @@ impl Kernel {
         match rec.class {
             OpClass::Close => {
                 let idx = sqe.file_index();
-                let res = if idx != 0 {
+                // The same operation issuing the same CLOSE again after the
+                // first one reported EINTR: the descriptor was released by the
+                // first one (io_close reports ->flush errors after the fact).
+                let reissued = rec.by_op != NO_OP
+                    && self.records.iter().any(|p| {
+                        p.by_op == rec.by_op
+                            && p.during == rec.during
+                            && matches!(p.class, OpClass::Close)
+                            && p.sqe == rec.sqe
+                            && p.cqes.last().is_some_and(|c| c.0 == -libc::EINTR)
+                    });
+                let res = if reissued {
+                    violation(
+                        "fd.double-close.interrupted-close",
+                        format!(
+                            "AsyncFd::close(): the CLOSE that ended with EINTR (descriptor already released) was issued again for {}",
+                            if idx != 0 { "the same direct slot" } else { "the same descriptor number" }
+                        ),
+                    );
+                    -libc::EBADF
+                } else if sqe.flags() & SQE_FIXED_FILE != 0 {
+                    // io_close_prep: IOSQE_FIXED_FILE is refused, nothing is closed
+                    // (conformance script close-fixed-file-flag).
+                    -libc::EBADF
+                } else if idx != 0 {
                     if sqe.fd() != 0 {
                         violation(
                             "fd.wrong-kind",
@@ -454,7 +478,9 @@ impl Kernel {
                 };
                 let res = if res == 0 && tape::chance(site::FAULT, self.cfg.p_close_err, 100) {
                     stats::inc(C::fault_close_error);
-                    -libc::EIO
+                    // Whatever ->flush reports, or a descriptor table changed
+                    // behind a10's back: any errno may come with user_data 3.
+                    -tape::pick(site::FAULT, &[libc::EIO, libc::EBADF, libc::EINTR, libc::ENOSPC])
                 } else {
                     res
                 };
@@ -689,6 +715,10 @@ impl Kernel {
     /// Produce the next `n` bytes a read on `fd` returns.
     fn read_source(&mut self, fd: i32, n: usize) -> Vec<u8> {
         if let Some(q) = self.scripts.get_mut(&fd) {
+            // An empty chunk is the end of the stream, and stays.
+            if q.front().is_some_and(Vec::is_empty) {
+                return Vec::new();
+            }
             return match q.pop_front() {
                 Some(mut chunk) => {
                     if chunk.len() > n {
@@ -935,9 +965,21 @@ impl Kernel {
                         res = data.len() as i32;
                         self.put("read buffer", target, &data, name);
                         wrote = data;
-                        if let Some(bid) = bid {
-                            flags |= CQE_F_BUFFER | (u32::from(bid) << CQE_BUFFER_SHIFT);
-                            self.records[kid as usize].buf_ids.push(bid);
+                        match bid {
+                            // A multishot read that hits the end of the stream
+                            // terminates without consuming a buffer (probed on
+                            // Linux 6.18); a single read at EOF does consume one.
+                            Some(bid) if rec.multishot && res == 0 => {
+                                if let Some(p) = self.rings[r].pbufs.get_mut(&sqe.buf_group()) {
+                                    p.head = p.head.wrapping_sub(1);
+                                    p.handed_out.retain(|b| *b != bid);
+                                }
+                            }
+                            Some(bid) => {
+                                flags |= CQE_F_BUFFER | (u32::from(bid) << CQE_BUFFER_SHIFT);
+                                self.records[kid as usize].buf_ids.push(bid);
+                            }
+                            None => {}
                         }
                         if rec.multishot {
                             // A series: more follows unless the stream ended.
